@@ -803,6 +803,9 @@ func (c *Chunker) splitSectionByParagraphs(section *Section, chunkIndex *int, do
 				prevChunk.Metadata.WordCount = countWords(prevChunk.Text)
 				prevChunk.Metadata.EstimatedTokens = len(prevChunk.Text) / 4
 				prevChunk.TextWithContext = prevChunk.generateContextualText()
+				if _, last := pageSpan(currentElements); last > prevChunk.Metadata.PageEnd {
+					prevChunk.Metadata.PageEnd = last
+				}
 				currentText.Reset()
 				currentElements = nil
 				elementTypes = nil
@@ -828,6 +831,9 @@ func (c *Chunker) splitSectionByParagraphs(section *Section, chunkIndex *int, do
 
 		chunk := c.createChunk(text, section, *chunkIndex, docTitle, elementTypes, hasTable, hasList, hasImage, bbox)
 		chunk.Metadata.Level = ChunkLevelParagraph
+		if first, last := pageSpan(currentElements); first > 0 {
+			chunk.Metadata.PageStart, chunk.Metadata.PageEnd = first, last
+		}
 		chunks = append(chunks, chunk)
 		*chunkIndex++
 
@@ -920,6 +926,9 @@ func (c *Chunker) splitSectionByParagraphs(section *Section, chunkIndex *int, do
 				}
 				chunk := c.createChunk(atomicStr, section, *chunkIndex, docTitle, atomicTypes, atomicHasTable, atomicHasList, atomicHasImage, bbox)
 				chunk.Metadata.Level = ChunkLevelParagraph
+				if first, last := pageSpan(atomicElements); first > 0 {
+					chunk.Metadata.PageStart, chunk.Metadata.PageEnd = first, last
+				}
 				chunks = append(chunks, chunk)
 				*chunkIndex++
 			}
@@ -1038,6 +1047,9 @@ func (c *Chunker) splitBySentences(text string, section *Section, chunkIndex *in
 			chunk := c.createChunk(chunkText, section, *chunkIndex, docTitle,
 				[]string{elem.Type.String()}, false, false, false, &elem.BBox)
 			chunk.Metadata.Level = ChunkLevelSentence
+			if elem.Page > 0 {
+				chunk.Metadata.PageStart, chunk.Metadata.PageEnd = elem.Page, elem.Page
+			}
 			chunks = append(chunks, chunk)
 			*chunkIndex++
 			currentText.Reset()
@@ -1055,11 +1067,32 @@ func (c *Chunker) splitBySentences(text string, section *Section, chunkIndex *in
 		chunk := c.createChunk(chunkText, section, *chunkIndex, docTitle,
 			[]string{elem.Type.String()}, false, false, false, &elem.BBox)
 		chunk.Metadata.Level = ChunkLevelSentence
+		if elem.Page > 0 {
+			chunk.Metadata.PageStart, chunk.Metadata.PageEnd = elem.Page, elem.Page
+		}
 		chunks = append(chunks, chunk)
 		*chunkIndex++
 	}
 
 	return chunks
+}
+
+// pageSpan returns the first and last page the given elements came from
+// (0, 0 when there are none).
+func pageSpan(elems []ContentElement) (int, int) {
+	first, last := 0, 0
+	for _, e := range elems {
+		if e.Page <= 0 {
+			continue
+		}
+		if first == 0 || e.Page < first {
+			first = e.Page
+		}
+		if e.Page > last {
+			last = e.Page
+		}
+	}
+	return first, last
 }
 
 // createChunk creates a new Chunk with the given parameters
